@@ -276,6 +276,14 @@ class Driver:
             p.send(data, dst, op.get("src_port", wire.MDNS_PORT))
 
         p.new_context().run(go)
+        if op.get("then"):
+            # the next packet of the same query follows from the same source (one op, so that minimisation keeps or
+            # drops the query as a whole)
+            nxt = dict(op["then"])
+            nxt.setdefault("p", op["p"])
+            nxt.setdefault("src_port", op.get("src_port", wire.MDNS_PORT))
+            nxt.setdefault("op", "send")
+            self.w.loop.call_at(self.w.now + nxt.pop("dt"), self.op_send, nxt)
 
     def op_partition(self, op):
         names = list(op["names"])
